@@ -28,32 +28,42 @@ Proof.
 Qed.
 
 (* a sum over seq / enumerate is an indexed sum *)
+Lemma sumf_shift (h : nat -> R) m : h O + sumf (fun k => h (S k)) m = sumf h (S m).
+Proof.
+  induction m; simpl. ring. simpl in IHm. rewrite <- Rplus_assoc, IHm. ring.
+Qed.
+
 Lemma sum_flat_seq (g : nat -> list R) n : forall a,
   sum_list (flat_map g (seq a n)) = sumf (fun k => sum_list (g (a + k)%nat)) n.
 Proof.
-  induction n; intro a; simpl. reflexivity.
-  rewrite sum_list_app, IHn.
-  assert (forall m b, sum_list (g b) + sumf (fun k => sum_list (g (S b + k)%nat)) m =
-                      sumf (fun k => sum_list (g (b + k)%nat)) (S m)) as H.
-  { induction m; intro b; simpl. rewrite Nat.add_0_r. ring.
-    specialize (IHm b). simpl in IHm. rewrite <- Rplus_assoc, IHm.
-    replace (b + S m)%nat with (S (b + m)) by lia. ring. }
-  apply H.
+  induction n; intro a. reflexivity.
+  cbn [seq flat_map]. rewrite sum_list_app, IHn.
+  rewrite <- (sumf_shift (fun k => sum_list (g (a + k)%nat)) n). rewrite Nat.add_0_r. f_equal.
+  apply sumf_ext. intros k _. replace (S a + k)%nat with (a + S k)%nat by lia. reflexivity.
 Qed.
 
 Lemma sum_flat_enum {X} (d : X) (g : nat * X -> list R) (l : list X) : forall a,
   sum_list (flat_map g (enumerate_from a l)) = sumf (fun k => sum_list (g ((a + k)%nat, nth k l d))) (List.length l).
 Proof.
-  induction l as [|x l IH]; intro a; simpl. reflexivity.
-  rewrite sum_list_app, IH.
-  assert (forall m (h : nat -> R), h O + sumf (fun k => h (S k)) m = sumf h (S m)) as H.
-  { induction m; intro h; simpl. ring. specialize (IHm h). simpl in IHm. rewrite <- Rplus_assoc, IHm. ring. }
-  rewrite <- (H (List.length l) (fun k => sum_list (g ((a + k)%nat, nth k (x :: l) d)))).
-  simpl. rewrite Nat.add_0_r. f_equal. apply sumf_ext. intros k _. replace (S a + k)%nat with (a + S k)%nat by lia. reflexivity.
+  induction l as [|x l IH]; intro a. reflexivity.
+  cbn [enumerate_from flat_map List.length]. rewrite sum_list_app, IH.
+  rewrite <- (sumf_shift (fun k => sum_list (g ((a + k)%nat, nth k (x :: l) d))) (List.length l)).
+  cbn [nth]. rewrite Nat.add_0_r. f_equal.
+  apply sumf_ext. intros k _. replace (S a + k)%nat with (a + S k)%nat by lia. reflexivity.
 Qed.
 
 Lemma Q2R_inject_Z z : Q2R (inject_Z z) = IZR z.
 Proof. unfold Q2R, inject_Z. simpl. field. Qed.
+
+(* the weight is never zero *)
+Lemma weight_nonzero a : Q2R (weight a) <> 0.
+Proof.
+  unfold weight. destruct (Qle_bool a 0) eqn:E.
+  - unfold Q2R. simpl. lra.
+  - assert (0 < a)%Q as H.
+    { apply Qnot_le_lt. intro H. apply Qle_bool_iff in H. congruence. }
+    apply Qlt_Rlt in H. replace (Q2R 0) with 0 in H by (unfold Q2R; simpl; lra). lra.
+Qed.
 
 Section Renorm.
 Variable elA : list Q.            (* mass number of each element of the network *)
@@ -65,9 +75,9 @@ Let nel := List.length elA.
 Let nsp := List.length sps.
 Definition dsp : rsp := {| r_cnt := []; r_mass := 0; r_elec := true |}.
 Let sp (k : nat) := nth k sps dsp.
-Let A (j : nat) : R := Q2R (nth j elA 0%Q).
+Let A (j : nat) : R := Q2R (weight (nth j elA 0%Q)).
 Let c (k i : nat) : R := IZR (cnt (sp k) i).
-Let m (k : nat) : R := Q2R (r_mass (sp k)).
+Let m (k : nat) : R := Q2R (weight (r_mass (sp k))).
 
 (* value of the emitted expressions *)
 Definition ev_matrix_entry (l : list term) : R :=
@@ -90,12 +100,9 @@ Lemma M_sum i j :
   M i j = sumf (fun k => c k i * c k j * A j * ab k / m k / Hn) nsp.
 Proof.
   unfold M, ev_matrix_entry, matrix_entry, enumerate.
-  rewrite <- flat_map_concat_map. rewrite flat_map_concat_map.
-  rewrite <- (flat_map_concat_map _ (flat_map _ _)).
   assert (forall (g : nat * rsp -> list term) l (h : term -> R),
             map h (flat_map g l) = flat_map (fun p => map h (g p)) l) as Hm.
   { intros g l h. induction l; simpl; auto. rewrite map_app, IHl. reflexivity. }
-  rewrite flat_map_concat_map, <- flat_map_concat_map.
   rewrite Hm. rewrite (sum_flat_enum dsp). fold nsp.
   apply sumf_ext. intros k Hk. simpl.
   fold (sp k). unfold c, m, A.
@@ -108,10 +115,11 @@ Proof.
     + rewrite (nonzero_false _ Ei). unfold Rdiv. ring.
 Qed.
 
-Lemma factor_sum k : (k < nsp)%nat -> r_elec (sp k) = false ->
-  ev_factor (factor_entry elA (sp k)) = sumf (fun j => c k j * A j * r j / m k) nel.
+Lemma factor_terms_sum k :
+  sum_list (map (fun t : term => Q2R (fst (fst t)) * r (snd (fst t)) / Q2R (snd t)) (factor_terms elA (sp k)))
+  = sumf (fun j => c k j * A j * r j / m k) nel.
 Proof.
-  intros Hk Ee. unfold ev_factor, factor_entry. rewrite Ee.
+  unfold factor_terms.
   assert (forall (g : nat -> list term) l (h : term -> R),
             map h (flat_map g l) = flat_map (fun p => map h (g p)) l) as Hm.
   { intros g l h. induction l; simpl; auto. rewrite map_app, IHl. reflexivity. }
@@ -122,26 +130,46 @@ Proof.
   - rewrite (nonzero_false _ Ej). unfold Rdiv. ring.
 Qed.
 
+(* no term at all: the species holds none of the network's elements *)
+Lemma factor_terms_nil k : factor_terms elA (sp k) = [] -> forall j, (j < nel)%nat -> c k j = 0.
+Proof.
+  intros H j Hj. unfold c. destruct (nonzero (cnt (sp k) j)) eqn:E.
+  - exfalso. assert (In (inject_Z (cnt (sp k) j) * weight (nth j elA 0%Q), j, weight (r_mass (sp k)))%Q (factor_terms elA (sp k))) as Hin.
+    { unfold factor_terms. apply in_flat_map. exists j. split. apply in_seq. unfold nel in Hj. lia. rewrite E. simpl; auto. }
+    rewrite H in Hin. destruct Hin.
+  - apply nonzero_false. exact E.
+Qed.
+
+Lemma factor_sum k i : (k < nsp)%nat -> (i < nel)%nat -> r_elec (sp k) = false ->
+  c k i * ev_factor (factor_entry elA (sp k)) = c k i * sumf (fun j => c k j * A j * r j / m k) nel.
+Proof.
+  intros Hk Hi Ee. unfold ev_factor, factor_entry. rewrite Ee.
+  destruct (factor_terms elA (sp k)) eqn:E.
+  - rewrite (factor_terms_nil k E i Hi). ring.
+  - rewrite <- E. rewrite factor_terms_sum. reflexivity.
+Qed.
+
 (* electrons are left untouched *)
 Lemma electron_untouched_lemma k : r_elec (sp k) = true -> ab' k = ab k.
 Proof. intro H. unfold ab', ev_factor, factor_entry. rewrite H. ring. Qed.
 
 (* after the renormalisation every element total is Hn x (M r)_i - whatever the masses, as long
    as no division by zero occurs *)
-Lemma total_after i :
+Lemma total_after i : (i < nel)%nat ->
   Hn <> 0 -> (forall k, (k < nsp)%nat -> r_elec (sp k) = false -> m k <> 0) ->
   total ab' i = Hn * sumf (fun j => M i j * r j) nel.
 Proof.
-  intros HH Hm. unfold total.
+  intros Hi HH Hm. unfold total.
   transitivity (sumf (fun k => sumf (fun j => c k i * c k j * A j * ab k / m k * r j) nel) nsp).
   - apply sumf_ext. intros k Hk. destruct (r_elec (sp k)) eqn:Ee.
     + unfold c at 1. rewrite (electron_no_element k i Hk Ee). simpl.
       rewrite Rmult_0_l. symmetry. rewrite <- (sumf_zero nel). apply sumf_ext. intros j _.
       unfold c at 1. rewrite (electron_no_element k i Hk Ee). simpl. unfold Rdiv. ring.
-    + unfold ab'. rewrite (factor_sum k Hk Ee). rewrite <- sumf_scale. rewrite <- sumf_scale.
+    + unfold ab'. replace (c k i * (ab k * ev_factor (factor_entry elA (sp k)))) with (ab k * (c k i * ev_factor (factor_entry elA (sp k)))) by ring.
+      rewrite (factor_sum k i Hk Hi Ee). rewrite <- sumf_scale. rewrite <- sumf_scale.
       apply sumf_ext. intros j _. unfold Rdiv. ring.
   - rewrite sumf_swap. rewrite <- sumf_scale. apply sumf_ext. intros j _.
-    rewrite M_sum. rewrite <- sumf_scale.
+    rewrite M_sum.
     assert (forall f n x, sumf f n * x = sumf (fun k => f k * x) n) as Hs.
     { intros f n x. induction n; simpl. ring. rewrite <- IHn. ring. }
     rewrite Hs. rewrite <- sumf_scale. apply sumf_ext. intros k Hk.
@@ -166,7 +194,9 @@ Lemma identity_lemma :
   (forall j, r j = 1) -> forall k, (k < nsp)%nat -> ab' k = ab k.
 Proof.
   intros Hm Hr k Hk. destruct (r_elec (sp k)) eqn:Ee. apply electron_untouched_lemma; auto.
-  unfold ab'. rewrite (factor_sum k Hk Ee).
+  unfold ab', ev_factor, factor_entry. rewrite Ee.
+  destruct (factor_terms elA (sp k)) eqn:E. ring.
+  rewrite <- E. rewrite factor_terms_sum.
   replace (sumf (fun j => c k j * A j * r j / m k) nel) with (sumf (fun j => c k j * A j) nel * / m k).
   - rewrite <- (mass_consistent k Hk Ee). field. auto.
   - assert (forall f n x, sumf f n * x = sumf (fun k => f k * x) n) as Hs.
@@ -176,9 +206,9 @@ Qed.
 
 Lemma ones_solve_lemma :
   Hn <> 0 -> (forall k, (k < nsp)%nat -> r_elec (sp k) = false -> m k <> 0) ->
-  (forall j, r j = 1) -> forall i, Hn * sumf (fun j => M i j * r j) nel = total ab i.
+  (forall j, r j = 1) -> forall i, (i < nel)%nat -> Hn * sumf (fun j => M i j * r j) nel = total ab i.
 Proof.
-  intros HH Hm Hr i. rewrite <- total_after by auto. unfold total. apply sumf_ext. intros k Hk.
+  intros HH Hm Hr i Hi. rewrite <- total_after by auto. unfold total. apply sumf_ext. intros k Hk.
   rewrite identity_lemma; auto.
 Qed.
 End Renorm.
